@@ -57,7 +57,7 @@ def main():
                   "baseline_off_cmd": "cmake --build /repo/_build -j8 && ctest --test-dir /repo/_build -j8 --timeout 900", "source_commits": [], "add_only": True},
         "engines": [{"name": k, "path": "vp/run.py" if k != "seqir" else "vp/ll2c.py", "serves_properties": sorted(v), "kind_free_text": kinds.get(k, k)} for k, v in sorted(engines.items())],
         "checks": checks,
-        "notes": "All checks are solver queries (CBMC+SAT) over code compiled from /repo's working tree at run time; see DESIGN.md. known_findings.json lists recorded/fixed genuine defects.",
+        "notes": "All checks are solver queries (CBMC+SAT) over code compiled from /repo's working tree at run time; see DESIGN.md (sections 9-14 = as built) and STATUS.md. No source hooks. known_findings.json lists the genuine defects found: 15 repaired by unguarded 'fix:' commits in /repo (after which the 75 baseline tests pass), 8 recorded as known findings (their checks print KNOWN-FINDING and exit 0). Independently seeded changes and which check reports each: /verif/seeded/*/meta.json, DESIGN.md section 11. The thorough tier is registered only where the whole tier was validated on the final tree (vp/thorough_ok.json).",
         "not_applicable": not_app,
     }
     with open(os.path.join(VERIF, "MANIFEST.json"), "w") as f:
